@@ -34,3 +34,7 @@ func VerifHarness_C05_O2() {
 	verifAssert("node-receives-the-bytes-as-submitted", same)
 	verifReach("end")
 }
+
+// C02/O6 — a delivered block is not rewritten by the application reusing its
+// submission buffer: the proxy hands the node a copy (= C05/O2).
+func VerifHarness_C02_O6() { VerifHarness_C05_O2() }
